@@ -66,6 +66,14 @@ Theorem C04_duplicate_refused fe t k h0 h v ex :
 Proof. exact (top_duplicate_refused fe t k h0 h v ex). Qed.
 Print Assumptions C04_duplicate_refused.
 
+(* ... and leaves the whole node of every prefix as it was: the occupying handler keeps its validator and its options
+   (need_raw_packet / need_sig_ptrs), whatever validator / options the refused call carried *)
+Theorem C04_duplicate_refused_keeps_options fe t k h0 h v ex :
+  attached t k = Some h0 ->
+  exists t', fib_attach fe t k h v ex = (t', Err EValue) /\ forall q, t_get t' q = t_get t q.
+Proof. exact (top_duplicate_refused_nodes fe t k h0 h v ex). Qed.
+Print Assumptions C04_duplicate_refused_keeps_options.
+
 (* attaching to a free prefix succeeds and changes that prefix only *)
 Theorem C04_attach_frame fe t k h v ex :
   attached t k = None ->
